@@ -538,7 +538,12 @@ pub fn e2_jobs(prop: &str, tier: Tier) -> Vec<E2Job> {
                         for m in modes {
                             let mut s = Scenario::plain(p.clone(), *m, 2);
                             s.panics = c.clone();
-                            v.push(s);
+                            v.push(s.clone());
+                            // the same panic raised at the end of run, after the system has written through its guards
+                            if c.len() == 1 && !c[0].1 && info.nodes[c[0].0].kind != crate::spec::Kind::Batch {
+                                s.panic_late = true;
+                                v.push(s);
+                            }
                         }
                     }
                 }
@@ -611,6 +616,21 @@ pub fn e2_jobs(prop: &str, tier: Tier) -> Vec<E2Job> {
                     }
                 }
                 jobs.push(E2Job { label: "thread-local plans with a panicking ordinary system".into(), scenarios: scs, bounds: b(1), delay: false });
+                // a thread-local system panics (caught): the next dispatch still runs every thread-local system, in order
+                let mut scs = Vec::new();
+                for p in tl(2).into_iter().chain(tl(3).into_iter().filter(|p| p.len() == 3).take(200)) {
+                    let info = PlanInfo::of(&p);
+                    for n in &info.nodes {
+                        if n.kind == crate::spec::Kind::Tl && n.parent.is_none() {
+                            for at_fetch in [false, true] {
+                                let mut s = Scenario::plain(p.clone(), Mode::Dispatch, 2);
+                                s.panics = vec![(n.id, at_fetch)];
+                                scs.push(s);
+                            }
+                        }
+                    }
+                }
+                jobs.push(E2Job { label: "thread-local plans with a panicking thread-local system, then a clean dispatch".into(), scenarios: scs, bounds: b(1), delay: false });
             }
             {
                 // async dispatcher: whatever is called between dispatch and wait (polling, the other accessors, a
@@ -810,6 +830,25 @@ fn c11_scenarios(w: usize, n: usize) -> Vec<(String, Scenario)> {
         s.foreign_pool = Some(1);
         s.rendezvous = Some((ids.clone(), w as u16));
         v.push((format!("dispatch from a worker of a foreign 1-thread pool / width {} / own pool of {} threads", w, n), s));
+    }
+    // the user-supplied pool handed over late: after the registrations (the batch's sub-dispatcher has been
+    // built by then and the default pool is one thread wide), or after a one-thread decoy pool
+    for placement in [1u8, 2] {
+        for batch in [false, true] {
+            let (ops, rv): (Vec<Op>, Vec<usize>) = if batch {
+                (vec![Op::Batch(crate::spec::BatchSpec { name: "b".into(), deps: vec![], ctrl: crate::spec::CtrlData::Unit, times: 1, multi: false, fetch_data: false, inner: wide_stage(w) })], (1..=w).collect())
+            } else {
+                (wide_stage(w), ids.clone())
+            };
+            for mode in [Mode::Dispatch, Mode::Async] {
+                let mut s = Scenario::plain(ops.clone(), mode, 2);
+                s.user_pool = Some(n);
+                s.default_threads = Some(1);
+                s.pool_placement = placement;
+                s.rendezvous = Some((rv.clone(), w as u16));
+                v.push((format!("user pool handed over late (placement {}) / width {} / {} threads", placement, w, n), s));
+            }
+        }
     }
     // a narrow batch registered (and therefore built) first, then the wide stage: behind a barrier, beside the
     // batch, and as the inner stage of a second batch; the pool (default or user-supplied) is shared by all
@@ -1036,6 +1075,44 @@ pub fn run_c15(tier: Tier, budget: Duration, frag: &mut Frag) {
         let opts = ExploreOpts { bounds: vec![0, 1], all_points: false, deadline: t0 + budget / 4, max_execs: u64::MAX, keep_traces: 0, deadlock_prop: Some("EXPECTED-BLOCKED-CALLER"), delay_mode: false };
         let r = run_scenarios(&scs, Mon::default(), &opts);
         frag.parts.push(json!({"engine":"E2 schedmc","scenarios":"a background system panics whenever it runs: 9 scripts x every system of 6 plans; a call may unwind or block, it must not return as if the dispatch had completed","n_scenarios":scs.len(),"scenarios_completed":r.completed,"schedules":r.executions,"states":r.nodes,"transitions":r.transitions,"deadlocks":r.deadlocks,"cap_hit":r.capped,"wall_s":t0.elapsed().as_secs_f64()}));
+        frag.states += r.nodes;
+        frag.transitions += r.transitions;
+        frag.exhaustive &= !r.capped;
+        frag.col.merge(r.col);
+    }
+    // plan shapes: every sequence of 2..4|5 stages, each single-group or two groups wide (code that treats runs of
+    // single-group stages, or the stage behind them, differently)
+    {
+        let mut scs = Vec::new();
+        let max_stages = if q { 4 } else { 5 };
+        for nst in 2..=max_stages {
+            for mask in 0..(1u32 << nst) {
+                // stage k is wide iff bit k of mask; consecutive stages are separated by a writer/reader alternation on A
+                let mut ops: Vec<Op> = Vec::new();
+                for k in 0..nst {
+                    let wide = mask & (1 << k) != 0;
+                    if wide {
+                        // two readers of A side by side; forced behind the previous stage by a barrier
+                        ops.push(sy(&format!("r{}a", k), &[0], &[], &[]));
+                        ops.push(sy(&format!("r{}b", k), &[0], &[], &[]));
+                    } else {
+                        ops.push(sy(&format!("w{}", k), &[], &[0], &[]));
+                    }
+                    if k + 1 < nst {
+                        ops.push(Op::Barrier);
+                    }
+                }
+                for script in ["DW", "DWDW", "DX", "DDW"] {
+                    let mut sc = Scenario::plain(ops.clone(), Mode::Async, 0);
+                    sc.script = Some(script.to_string());
+                    scs.push(sc);
+                }
+            }
+        }
+        let t0 = Instant::now();
+        let opts = ExploreOpts { bounds: vec![0, 1], all_points: false, deadline: t0 + budget / 5, max_execs: u64::MAX, keep_traces: 0, deadlock_prop: Some("C15"), delay_mode: true };
+        let r = run_scenarios(&scs, Mon::default(), &opts);
+        frag.parts.push(json!({"engine":"E2 schedmc","scenarios":format!("plan shapes: every sequence of 2..{} stages, each one group or two groups wide; scripts DW, DWDW, DX, DDW", max_stages),"n_scenarios":scs.len(),"scenarios_completed":r.completed,"bound_kind":"delay (all deviations)","bounds":[0,1],"schedules":r.executions,"states":r.nodes,"transitions":r.transitions,"deadlocks":r.deadlocks,"cap_hit":r.capped,"wall_s":t0.elapsed().as_secs_f64()}));
         frag.states += r.nodes;
         frag.transitions += r.transitions;
         frag.exhaustive &= !r.capped;
